@@ -165,7 +165,7 @@ def subsetsBelow : Nat → List (List Nat)
 /-- One recorded call of a public evaluation method.
 `fam` = index into the generated `families` list; `meth`: 0 = cdf, 1 = icdf, 2 = pdf; `fixed` = parameters given as `f_<p>` to the constructor (all
 parameters are also given as plain values); `expl` = parameters passed explicitly to the
-method; `mode`: 0 = explicit parameters by keyword, 1 = positionally (with `None` for the
+method; `mode`: 0 = explicit parameters by keyword, 3 = first explicit one by position and the others by keyword, 1 = positionally (with `None` for the
 others), 2 = through a `ConditionalDistribution` (every non-fixed parameter has a dependence
 function, `expl` = all); `result` = `none` if the call raised, else (scipy distribution
 name, scipy method name, arguments after `x`). -/
@@ -231,7 +231,7 @@ def raiseOk (fams : List Family) (r : GetRow) : Bool :=
   | some _ => !(raiseDocumented fams r)
 
 /-- exhaustiveness of the generated table: every family × method × subset of explicit
-parameters × calling convention, and every subset of fixed parameters with nothing / everything
+parameters × calling convention (0 by name, 1 by position, 3 mixed), and every subset of fixed parameters with nothing / everything
 explicit and through a ConditionalDistribution -/
 def getTableComplete (fams : List Family) (rows : List GetRow) : Bool :=
   (List.range fams.length).all fun i =>
@@ -244,6 +244,9 @@ def getTableComplete (fams : List Family) (rows : List GetRow) : Bool :=
       let full := List.range f.params.length
       (subs.all fun E => [0, 1].all fun mode =>
         rs.any fun r => r.meth == m && r.fixed == [] && r.expl == E && r.mode == mode) &&
+      -- mode 3: first explicit parameter by position, the others by name (needs two explicit parameters)
+      (subs.all fun E => E.length < 2 ||
+        rs.any fun r => r.meth == m && r.fixed == [] && r.expl == E && r.mode == 3) &&
       (subs.all fun F =>
         (rs.any fun r => r.meth == m && r.fixed == F && r.expl == [] && r.mode == 0) &&
         (rs.any fun r => r.meth == m && r.fixed == F && r.expl == full && r.mode == 0) &&
